@@ -595,7 +595,7 @@ pub fn finish(cfg: &Cfg, mut st: Stats, rule: &str, assumptions: &[&str], replay
                     s.failures.contains_key(&sig)
                 };
                 // failures that need a child process per evaluation (hang / process death) get a small budget
-                let budget = if f.sig.starts_with("hang") || f.sig.contains("process-death") { 12 } else { 20_000 };
+                let budget = if f.sig.starts_with("hang") || f.sig.contains("process-death") { 12 } else if f.sig.starts_with("debug-assertions-build") { 60 } else { 20_000 };
                 let m = minimise_bytes(&b, &pred, budget);
                 if m != b {
                     let mut c = f.case.clone();
